@@ -29,6 +29,7 @@ def stopping_plan(prop, ctx, with_t3=False, with_x=True):
     P.append(sweep.family_shards(prop, "U-E", j))
     P.append(sweep.family_shards(prop, "U-L", j))
     P.append(sweep.family_shards(prop, "U-K", j))
+    P.append(sweep.family_shards(prop, "U-M", 1000))
     P.append(sweep.family_shards(prop, "U-H", 1000))
     P.append(sweep.family_shards(prop, "U-W", 1000))
     P.append(sweep.family_shards(prop, "U-Z", j))
